@@ -40,6 +40,7 @@ type scope interface {
 type run struct {
 	req      *Request
 	ts       *types
+	tnames   *typeNames // lazily built reverse map for DOT node names
 	fns      map[int]*fnState
 	userErrs map[[2]int]*UserErr
 
@@ -259,6 +260,12 @@ func (r *run) exec(i int, op Op, or *OpRes) {
 		r.guarded(i, or, func() error { return dig.Visualize(r.container, &buf, opts...) })
 		text := buf.String()
 		or.DotText = &text
+		if _, panicked := or.V.(verdictPanic); !panicked {
+			if r.tnames == nil {
+				r.tnames = newTypeNames(r.ts.byID) // all composites are registered before the first op
+			}
+			or.Dot = parseDot(text, r.tnames)
+		}
 
 	case "string":
 		r.guarded(i, or, func() error { _ = sc.String(); return nil })
